@@ -130,7 +130,7 @@ static std::string state() {
   int di, dt;
   sigaction(SIGINT, 0, &a);  di = a.sa_handler == Stash<FnTag>::value ? 1 : a.sa_handler == SIG_DFL ? 0 : 9;
   sigaction(SIGTERM, 0, &a); dt = a.sa_handler == Stash<FnTag>::value ? 1 : a.sa_handler == SIG_DFL ? 0 : 9;
-  snprintf(buf, sizeof buf, "[s%d h%d d%d p%s z%u i%s I%d T%d]", (int)*Stash<StopTag>::value,
+  snprintf(buf, sizeof buf, "[s%d,h%d,d%d,p%s,z%u,i%s,I%d,T%d]", (int)*Stash<StopTag>::value,
            handler_id(*Stash<HandlerTag>::value), data_id(*Stash<DataTag>::value), pk,
            (unsigned)*Stash<SizeTag>::value, ik, di, dt);
   return buf;
@@ -275,7 +275,13 @@ int main(int argc, char **argv) {
         if (m == "C") { if (alive) bad = true; alive = true; nsteps += 7; }
         else if (m == "D") { if (!alive) bad = true; alive = false; nsteps += 5; }
         else if (m == "W") nsteps += 1;
-        else if (m[0] == 'R') { if (!alive) bad = true; nsteps += 2; }
+        else if (m[0] == 'R') {
+          int h = -1, d = -1, used = 0;
+          if (sscanf(m.c_str(), "R:%d:%d%n", &h, &d, &used) != 2 || (size_t)used != m.size() ||
+              h < 0 || h > 7 || d < 0 || d > 7) bad = true;
+          if (!alive) bad = true;
+          nsteps += 2;
+        }
         else bad = true;
       }
       if (!sched.empty() && sched.back().gap > nsteps) bad = true;
